@@ -6,10 +6,19 @@ usage: tools/seedtable.py            -> prints a markdown table
 import glob, json, os
 
 rows = []
+negs = []
 for d in sorted(glob.glob(os.path.join(os.path.dirname(__file__), "..", "seeded", "*"))):
     try:
         m = json.load(open(os.path.join(d, "meta.json")))
     except Exception:
+        continue
+    if m.get("negative_control") or m.get("reclassified") or m.get("obsolete_on_current_head") or m.get("obsolete"):
+        n = m.get("checked_by_verifier") or m.get("confirmed_by_verifier") or {}
+        ch = n.get("checks", {})
+        silent = all(v.get("exit") == 0 for v in ch.values()) if ch else None
+        why = "behaviour-preserving rewrite" if m.get("negative_control") else (m.get("reclassified") or m.get("obsolete_on_current_head") or "no longer breaks the property")[:120]
+        negs.append((os.path.basename(d), m.get("property", "?"), (m.get("summary") or "").replace("\n", " ").replace("|", "/")[:150],
+                     ",".join(sorted(ch)) or "-", "silent" if silent else ("ALARM" if silent is False else "?"), why))
         continue
     c = m.get("confirmed_by_verifier", {})
     checks = c.get("checks", {})
@@ -30,4 +39,10 @@ print("| change | property | needs, to manifest | caught by | first klass report
 print("|---|---|---|---|---|---|")
 for r in rows:
     print("| " + " | ".join(r) + " |")
-print(f"\n{len(rows)} confirmed changes, {sum(1 for r in rows if r[3] != 'MISSED')} caught by the quick tier.")
+print(f"\n{len(rows)} confirmed property-breaking changes, {sum(1 for r in rows if r[3] != 'MISSED')} caught by the quick tier.")
+print("\n## Negative controls (the checks must stay silent)\n")
+print("| control | property | change | checks run | result | kind |")
+print("|---|---|---|---|---|---|")
+for r in negs:
+    print("| " + " | ".join(r) + " |")
+print(f"\n{len(negs)} negative controls, {sum(1 for r in negs if r[4] == 'silent')} silent.")
